@@ -176,10 +176,11 @@ def _finish(tname, fname, root, ctx, kwargs, tok):
                 ext = collections.ChainMap(ext)
                 ctx.count("F1_extensions_chainmap")
         raise ResolverError(error_message(path), extensions=ext)
-    if fault == "boom":
+    if fault is not None and fault.startswith("boom"):
         ctx.log("rb", path, ctx.req_id)
         ctx.count("F3_boom")
-        cls = BOOM_CLASSES[sum(len(str(p)) for p in path) % len(BOOM_CLASSES)]
+        cls = BOOM_CLASSES[int(fault[4:] or 0) % len(BOOM_CLASSES)]
+        ctx.count("F3_boom_" + cls.__name__)
         raise cls("/".join(str(p) for p in path))
     v = ctx.world.field_value(root, tname, fname, kwargs, path, seq)
     ctx.log("re", path, ctx.req_id)
